@@ -791,7 +791,9 @@ def key_for(cls, spec, what):
     if what == "counter" and cls == "GerchbergSaxton":
         return KEY_GS
     if what == "early-stop" and cls == "SDMM":
-        return KEY_SDMM
+        # the recorded finding is the configuration WITHOUT any constraint block (nL = 0, no c_norm / c_max): nothing is tested there;
+        # an early stop at a non-fixed point with constraint blocks (the repaired z_old alias) keeps the general key
+        return KEY_SDMM + ":no-constraint-blocks" if (spec.get("nL") == 0 and spec.get("c_norm") is None) else KEY_SDMM
     if what == "early-stop" and cls == "PrimalDualHybridGradient":
         return KEY_PDHG
     if what == "early-stop" and cls == "GradientMethod" and spec.get("accel"):
